@@ -52,7 +52,14 @@ def run_case(case, acc, order):
     n = len(times)
     bounds = case['bounds']
     only = case.get('only_op')
-    ttype = [np.int64, np.float64, np.uint64][(order + case.get('seed', 0)) % 3]
+    tti = case.get('ttype_i', (order + case.get('seed', 0)) % 3)
+    ttype = [np.int64, np.float64, np.uint64][tti]
+    # the grid as given (integers), or a float grid whose bounds fall between the integer times
+    shift = [0, -0.5, 0.5][(order // 3 + case.get('seed', 0)) % 3]
+    if case.get('shift') is not None:
+        shift = case['shift']
+    if shift:
+        bounds = [b + shift for b in bounds]
     opi = -1
     for labels in itertools.product((0, 1), repeat=n):
         t_arr = np.array(times, dtype=ttype)
@@ -65,7 +72,7 @@ def run_case(case, acc, order):
             try:
                 sel = SpikeSelector(get_spikes_per_cluster=spc, spike_times=t_arr,
                                     chunk_bounds=list(bounds), n_chunks_kept=kept)
-                ck = [int(x) for x in np.asarray(sel.chunks_kept).tolist()]
+                ck = [float(x) if shift else int(x) for x in np.asarray(sel.chunks_kept).tolist()]
             except Exception as e:
                 sel, ck = None, e
             idx, intervals = expected_chunks(bounds, kept)
@@ -80,7 +87,7 @@ def run_case(case, acc, order):
                         else 'value')
                     sig = '%s/chunks_kept/%s' % (PROP, kind)
                     acc.violation(sig, core.make_record(
-                        PROP, 'chunks_kept', sig, case=dict(case, only_op=opi),
+                        PROP, 'chunks_kept', sig, case=dict(case, only_op=opi, shift=shift, ttype_i=tti),
                         op={'bounds': bounds, 'kept': kept}, expected=exp_ck,
                         observed=describe(ck) if isinstance(ck, BaseException) else ck),
                         order * 100000 + opi)
@@ -90,7 +97,10 @@ def run_case(case, acc, order):
             for count in COUNTS:
                 for clist in CLUSTER_LISTS:
                     for sub_chunks in (False, True):
-                        for subset in (None, [i for i in range(n) if i % 2 == 0], []):
+                        even = [i for i in range(n) if i % 2 == 0]
+                        # the subset is a set of ids: unsorted, possibly naming an id twice
+                        third = [] if kept % 2 == 0 or not even else even[::-1] + even[:1]
+                        for subset in (None, even, third):
                             opi += 1
                             if only is not None and only != opi:
                                 continue
@@ -154,7 +164,7 @@ def run_case(case, acc, order):
                                 if bad:
                                     sig = '%s/select/%s%s' % (PROP, bad, ',draw' if draws else '')
                                     acc.violation(sig, core.make_record(
-                                        PROP, 'select', sig, case=dict(case, only_op=opi),
+                                        PROP, 'select', sig, case=dict(case, only_op=opi, shift=shift, ttype_i=tti),
                                         op=dict(op, schedule=ch.schedule),
                                         expected={'eligible_per_cluster': elig},
                                         observed=describe(r) if isinstance(r, BaseException)
